@@ -283,11 +283,12 @@ package httpgrpc
 //@   ensures[C11] valid_request_reaches_the_handler: called("ioutil.ReadAll") && lastresult("ioutil.ReadAll", 1) == nil ==> calls("grpc.MethodDesc.Handler") == 1
 //@   assert_call[C11] getUnaryCodec : of_the_request_content_type: arg0 == hdr1(r.Header, "Content-Type")
 //@   assert_call[C11,C03,C09] contextFromHeaders : from_the_request_headers: arg1 == r.Header
+//@   assert_call[C13,C10,C04] contextFromHeaders : onto_the_request_context_with_the_peer_attached: (lastresult(peerFromRequest) != nil ==> arg0 == lastresult("peer.NewContext")) && (lastresult(peerFromRequest) == nil ==> arg0 == req_ctx(r))
 //@   assert_call[C11] writeError : to_this_response: arg0 == w
 //@   assert_call[C11,C16,C12] grpc.MethodDesc.Handler : registered_server_and_transport_interceptor: arg0 == svr && arg3 == unaryInt
 //@   assert_call[C11,C04,C10] grpc.MethodDesc.Handler : context_from_request_with_transport_stream: arg1 == lastresult(grpc.NewContextWithServerTransportStream) && lastarg(grpc.NewContextWithServerTransportStream, 0) == lastresult(contextFromHeaders, 0)
 //@   assert_call[C11,C01] grpc.MethodDesc.Handler : decoder_is_the_request_body: isfunc(arg2, "handleMethod.return.dec") && *binding(arg2, 0, "*encoding.Codec") == lastresult(getUnaryCodec) && *binding(arg2, 1, "*[]byte") == lastresult("ioutil.ReadAll", 0)
-//@   assert_call[C13] peer.NewContext : peer_of_the_request: arg1 == lastresult(peerFromRequest)
+//@   assert_call[C13] peer.NewContext : peer_of_the_request: arg1 == lastresult(peerFromRequest) && arg0 == req_ctx(r)
 //@   ensures[C03] handler_headers_and_trailers_copied: called("grpc.MethodDesc.Handler") ==> calls(toHeaders) == 2
 //@   ensures[C02,C14] failure_goes_to_the_error_renderer_once: called("grpc.MethodDesc.Handler") && lastresult("grpc.MethodDesc.Handler", 1) != nil ==> calls("var:errHandler") == 1 && !called("http.ResponseWriter.Write") && !called(writeError)
 //@   ensures[C02] success_writes_the_response_once: called("grpc.MethodDesc.Handler") && lastresult("grpc.MethodDesc.Handler", 1) == nil ==> !called("var:errHandler") && ((lastresult("encoding.Codec.Marshal", 1) != nil ==> calls(writeError) == 1 && lastarg(writeError, 1) == 500 && !called("http.ResponseWriter.Write")) && (lastresult("encoding.Codec.Marshal", 1) == nil ==> calls("http.ResponseWriter.Write") == 1 && !called(writeError) && lastarg("http.ResponseWriter.Write", 1) == lastresult("encoding.Codec.Marshal", 0)))
@@ -318,11 +319,12 @@ package httpgrpc
 //@   ensures[C16] transport_interceptor_takes_precedence: stream_handler_ran ==> (called("var:streamInt") <==> old(streamInt) != nil)
 //@   assert_call[C11] getStreamingCodec : of_the_request_content_type: arg0 == hdr1(r.Header, "Content-Type")
 //@   assert_call[C11,C03,C09] contextFromHeaders : from_the_request_headers: arg1 == r.Header
+//@   assert_call[C13,C10,C04] contextFromHeaders : onto_the_request_context_with_the_peer_attached: (lastresult(peerFromRequest) != nil ==> arg0 == lastresult("peer.NewContext")) && (lastresult(peerFromRequest) == nil ==> arg0 == req_ctx(r))
 //@   assert_call[C16,C12] var:streamInt : server_stream_info_and_registered_handler: arg0 == svr && typeis(arg1, "*serverStream") && unbox(arg1, "*serverStream") == str && arg2 == info && arg3 == desc.Handler
 //@   assert_call[C16,C12] grpc.StreamDesc.Handler : server_and_stream: arg0 == svr && typeis(arg1, "*serverStream") && unbox(arg1, "*serverStream") == str
 //@   assert_call[C11,C01] var:streamInt : stream_is_bound_to_this_exchange: str.r == r && str.w == w && str.codec == lastresult(getStreamingCodec) && str.respStream == desc.ClientStreams && !str.headersSent && !str.writeFailed && str.recvd == 0
 //@   assert_call[C11,C01] grpc.StreamDesc.Handler : stream_is_bound_to_this_exchange: str.r == r && str.w == w && str.codec == lastresult(getStreamingCodec) && str.respStream == desc.ClientStreams && !str.headersSent && !str.writeFailed && str.recvd == 0
-//@   assert_call[C13] peer.NewContext : peer_of_the_request: arg1 == lastresult(peerFromRequest)
+//@   assert_call[C13] peer.NewContext : peer_of_the_request: arg1 == lastresult(peerFromRequest) && arg0 == req_ctx(r)
 //@   ensures[C11,C02] exactly_one_trailer_frame_unless_the_write_failed: stream_handler_ran && !str.writeFailed ==> calls(writeProtoMessage) == 1
 //@   ensures[C11] nothing_after_a_failed_write: stream_handler_ran && str.writeFailed ==> !called(writeProtoMessage)
 //@   assert_call[C11,C02] writeProtoMessage : is_the_final_frame_of_this_reply: arg0 == w && arg1 == lastresult(getStreamingCodec) && arg3 && typeis(arg2, "*HttpTrailer") && unbox(arg2, "*HttpTrailer") == &tr
@@ -425,7 +427,7 @@ package httpgrpc
 //@   assert_call[C01] encoding.Codec.Unmarshal : into_the_callers_message: arg0 == cs.codec && arg2 == m
 //@   ensures[C01] at_most_one_message_decoded_per_receive: calls("encoding.Codec.Unmarshal") <= 1
 //@   ensures[C08,C01] success_delivered_a_message: result == nil ==> calls("encoding.Codec.Unmarshal") == 1 && lastresult("encoding.Codec.Unmarshal") == nil
-//@   ensures[C08] single_response_success_saw_a_clean_end: result == nil && !cs.respStream ==> calls("(*clientStream).readErrorIfDone") == 2 && lastresult("(*clientStream).readErrorIfDone", 0) && lastresult("(*clientStream).readErrorIfDone", 1) == io.EOF
+//@   ensures[C08,C02] single_response_success_saw_a_clean_end: result == nil && !cs.respStream ==> calls("(*clientStream).readErrorIfDone") == 2 && lastresult("(*clientStream).readErrorIfDone", 0) && lastresult("(*clientStream).readErrorIfDone", 1) == io.EOF
 //@   ensures[C08,C02] undecodable_message_is_internal: called("encoding.Codec.Unmarshal") && lastresult("encoding.Codec.Unmarshal") != nil ==> is_status_err(result) && err_status_code(result) == 13
 //@   modifies cs.rErr, cs.done, external
 
@@ -465,3 +467,65 @@ package httpgrpc
 //@   ensures[C12] every_registration_is_visited: calls("(grpchan.HandlerMap).ForEach") == 1
 //@   assert_call[C12] (grpchan.HandlerMap).ForEach : over_the_given_registry: arg0 == reg && isfunc(arg1, "HandleServices.arg#1")
 //@   modifies everything
+
+// ---- public entry points and thin wrappers ----
+//
+//@ func HandleMethod
+//@   loop loop#1 invariant[C12,C14] every_option_so_far_applied_to_the_handler_options: calls("httpgrpc.HandlerOption") == rangeindex + 1
+//@   assert_call[C12,C14] httpgrpc.HandlerOption : applied_to_this_handlers_options: arg0 == &hOpts
+//@   assert_call[C12,C16,C11] handleMethod : for_the_given_service_method_and_interceptor: arg0 == svr && arg1 == serviceName && arg2 == desc && arg3 == unaryInt && arg4 == &hOpts && calls("httpgrpc.HandlerOption") == len(opts)
+//@   ensures[C12,C11] result == lastresult(handleMethod) && calls(handleMethod) == 1
+//@   modifies everything
+//
+//@ func HandleStream
+//@   loop loop#1 invariant[C12,C14] every_option_so_far_applied_to_the_handler_options: calls("httpgrpc.HandlerOption") == rangeindex + 1
+//@   assert_call[C12,C14] httpgrpc.HandlerOption : applied_to_this_handlers_options: arg0 == &hOpts
+//@   assert_call[C12,C16,C11] handleStream : for_the_given_service_stream_and_interceptor: arg0 == svr && arg1 == serviceName && arg2 == desc && arg3 == streamInt && arg4 == &hOpts && calls("httpgrpc.HandlerOption") == len(opts)
+//@   ensures[C12,C11] result == lastresult(handleStream) && calls(handleStream) == 1
+//@   modifies everything
+//
+//@ func NewServer
+//@   ensures[C12] result != nil && fresh(result)
+//@   loop loop#1 invariant[C12,C16] every_option_so_far_applied_once: calls("httpgrpc.ServerOption.apply") == rangeindex + 1
+//@   assert_call[C12,C16] httpgrpc.ServerOption.apply : option_in_order_on_the_new_server: arg0 == opts[rangeindex] && arg1 == &s
+//@   ensures[C12,C16] all_options_applied: calls("httpgrpc.ServerOption.apply") == len(opts)
+//@   modifies everything
+//
+//@ func (serverOptFunc).apply
+//@   ensures[C12,C16] runs_the_option_once_on_the_server: calls("var:fn") == 1
+//@   assert_call[C12,C16] var:fn : arg0 == s
+//@   modifies everything
+//
+//@ func (HandlerOption).apply
+//@   ensures[C14] runs_the_option_once_on_the_servers_handler_options: calls("var:ho") == 1
+//@   assert_call[C14] var:ho : arg0 == &s.opts
+//@   modifies everything
+//
+//@ func (*Server).ServeHTTP
+//@   ensures[C11,C12] dispatches_through_the_servers_own_mux_once: calls("(*http.ServeMux).ServeHTTP") == 1
+//@   assert_call[C11,C12] (*http.ServeMux).ServeHTTP : arg0 == &s.mux && arg1 == w && arg2 == r
+//@   modifies everything
+//
+//@ func (*clientStream).Context
+//@   ensures[C04,C10] result == cs.ctx
+//@   modifies nothing
+//
+//@ func (*serverStream).Context
+//@   ensures[C04,C10] result == s.ctx
+//@   modifies nothing
+//
+//@ func (*serverStream).SetHeader
+//@   ensures[C03] sets_without_sending: calls("(*serverStream).setHeader") == 1 && result == lastresult("(*serverStream).setHeader")
+//@   assert_call[C03] (*serverStream).setHeader : arg0 == s && arg1 == md && !arg2
+//@   modifies s.headersSent, external, maps("http.Header")
+//
+//@ func (*serverStream).SendHeader
+//@   ensures[C03] sets_and_sends: calls("(*serverStream).setHeader") == 1 && result == lastresult("(*serverStream).setHeader")
+//@   assert_call[C03] (*serverStream).setHeader : arg0 == s && arg1 == md && arg2
+//@   modifies s.headersSent, external, maps("http.Header")
+//
+// Header(): blocks until the reader goroutine has seen the reply headers (or failed),
+// then reports what it stored.
+//@ func (*clientStream).Header
+//@   ensures[C03] reports_the_stored_headers_after_waiting: calls("(*sync.WaitGroup).Wait") == 1
+//@   assert_call[C03,C05] (*sync.WaitGroup).Wait : on_the_streams_ready_group: arg0 == &cs.ready
